@@ -847,4 +847,369 @@ Proof.
   field. exact Hne.
 Qed.
 
+(* ---------------- non_uniform_savgol reproduces polynomials ---------------- *)
+Lemma rsum_mul {A B} (f : A -> R) (g : B -> R) la lb :
+  rmul (rsum (map f la)) (rsum (map g lb)) = rsum (map (fun a => rsum (map (fun b => rmul (f a) (g b)) lb)) la).
+Proof.
+  rewrite <- rsum_map_scal_r. apply rsum_map_ext. intros a _. now rewrite rsum_map_scal_l.
+Qed.
+
+Lemma nth_map_seq {B} (f : nat -> B) (p k : nat) d : (k < p)%nat -> nth k (map f (seq 0 p)) d = f k.
+Proof.
+  intros Hk. rewrite (nth_indep _ d (f 0%nat)) by (rewrite map_length, seq_length; exact Hk).
+  rewrite map_nth, seq_nth by exact Hk. reflexivity.
+Qed.
+
+(* power sums: the entries of tA @ A *)
+Definition psum (ts : list R) (k m : nat) : R := rsum (map (fun t => rmul (pw t k) (pw t m)) ts).
+
+Lemma normal_mat_nth p ts k m : (k < p)%nat -> (m < p)%nat ->
+  nth m (nth k (normal_mat R rO rI radd rmul p ts) []) rO = psum ts k m.
+Proof. intros Hk Hm. unfold normal_mat. rewrite nth_map_seq by exact Hk. now rewrite nth_map_seq by exact Hm. Qed.
+
+(* Mi is a left inverse of M (p x p) *)
+Definition left_inverse (p : nat) (Mi M : list (list R)) : Prop :=
+  length Mi = p /\ (forall row, In row Mi -> length row = p) /\
+  forall k' m, (k' < p)%nat -> (m < p)%nat ->
+    rsum (map (fun k => rmul (nth k (nth k' Mi []) rO) (nth m (nth k M []) rO)) (seq 0 p))
+    = if (k' =? m)%nat then rI else rO.
+
+Variable minv : list (list R) -> list (list R).
+Local Notation nmat := (normal_mat R rO rI radd rmul).
+Local Notation pev := (peval R rO rI radd rmul).
+Local Notation lfit := (fit R rO rI radd rmul minv).
+
+(* the local least-squares fit returns the coefficients of any polynomial of degree < p *)
+Lemma fit_recovers p ts c : length c = p -> left_inverse p (minv (nmat p ts)) (nmat p ts) ->
+  lfit p ts (map (pev c) ts) = c.
+Proof.
+  intros Hc [HL [Hrow Hinv]]. unfold fit, coeffs. rewrite map_map.
+  apply nth_ext with (d := rO) (d' := rO); [rewrite map_length; congruence|].
+  intros k' Hk'. rewrite map_length, HL in Hk'.
+  set (G := fun row => rdot (map (fun t => rdot row (design_row R rI rmul p t)) ts) (map (pev c) ts)).
+  rewrite (nth_indep _ rO (G [])) by (rewrite map_length; lia).
+  rewrite (map_nth G). unfold G. clear G.
+  set (row := nth k' (minv (nmat p ts)) []).
+  assert (Hr : length row = p) by (apply Hrow, nth_In; lia).
+  rewrite dot_map_r.
+  rewrite (rsum_map_ext _ (fun t => rsum (map (fun k => rsum (map (fun m =>
+             rmul (rmul (nth k row rO) (pw t k)) (rmul (nth m c rO) (pw t m))) (seq 0 p))) (seq 0 p)))).
+  2:{ intros t _. unfold design_row. rewrite (dot_seq _ p 0 row Hr), peval_seq, Hc. cbn [plus]. apply rsum_mul. }
+  rewrite rsum_swap.
+  rewrite (rsum_map_ext _ (fun k => rsum (map (fun m => rsum (map (fun t =>
+             rmul (rmul (nth k row rO) (pw t k)) (rmul (nth m c rO) (pw t m))) ts)) (seq 0 p))))
+    by (intros k _; apply rsum_swap).
+  rewrite rsum_swap.
+  rewrite (rsum_map_ext _ (fun m => if (m =? k')%nat then nth m c rO else rO)).
+  - apply rsum_single. exact Hk'.
+  - intros m Hm. apply in_seq in Hm.
+    rewrite (rsum_map_ext _ (fun k => rmul (nth m c rO) (rmul (nth k row rO) (nth m (nth k (nmat p ts) []) rO)))).
+    + rewrite rsum_map_scal_l. subst row. rewrite (Hinv k' m Hk' ltac:(lia)).
+      rewrite Nat.eqb_sym. destruct (m =? k')%nat; ring.
+    + intros k Hk. apply in_seq in Hk. rewrite normal_mat_nth by lia. unfold psum.
+      rewrite <- !rsum_map_scal_l. apply rsum_map_ext. intros t _. ring.
+Qed.
+
+(* Taylor shift: the coefficients of q(a + t) as a polynomial in t *)
+Fixpoint padd (a b : list R) : list R :=
+  match a, b with
+  | [], _ => b
+  | _, [] => a
+  | x :: a', y :: b' => radd x y :: padd a' b'
+  end.
+Fixpoint pshift (q : list R) (a : R) : list R :=
+  match q with
+  | [] => []
+  | q0 :: q' => let s := pshift q' a in padd [q0] (padd (map (rmul a) s) (rO :: s))
+  end.
+
+Lemma pev_nil d : pev [] d = rO.
+Proof. reflexivity. Qed.
+
+Lemma pev_cons c0 c d : pev (c0 :: c) d = radd c0 (rmul d (pev c d)).
+Proof.
+  rewrite !peval_seq. cbn [length seq map rsuml fold_right nth rpow].
+  rewrite <- seq_shift, map_map. fold (rsum (map (fun x => rmul (nth (S x) (c0 :: c) rO) (pw d (S x))) (seq 0 (length c)))).
+  rewrite <- rsum_map_scal_l. f_equal; [ring|]. apply rsum_map_ext. intros k _. cbn [nth rpow]. ring.
+Qed.
+
+Lemma pev_padd a : forall b d, pev (padd a b) d = radd (pev a d) (pev b d).
+Proof.
+  induction a as [|x a IH]; intros b d; cbn [padd]; [rewrite pev_nil; ring|].
+  destruct b as [|y b]; [rewrite pev_nil; ring|]. rewrite !pev_cons, IH. ring.
+Qed.
+
+Lemma pev_scal a c d : pev (map (rmul a) c) d = rmul a (pev c d).
+Proof. induction c as [|c0 c IH]; cbn [map]; [rewrite !pev_nil; ring|]. rewrite !pev_cons, IH. ring. Qed.
+
+Lemma padd_length a : forall b, length a = length b -> length (padd a b) = length a.
+Proof. induction a as [|x a IH]; intros [|y b] H; try discriminate; [reflexivity|]. cbn [padd length]. f_equal. apply IH. now injection H. Qed.
+
+Lemma pshift_length q a : length (pshift q a) = length q.
+Proof.
+  induction q as [|q0 q IH]; [reflexivity|]. cbn [pshift].
+  assert (H : forall a b : list R, length (padd a b) = Nat.max (length a) (length b)).
+  { induction a0 as [|x a0 IHa]; intros [|y b]; cbn [padd length]; try lia. rewrite IHa. lia. }
+  rewrite !H. cbn [length]. rewrite map_length, IH. lia.
+Qed.
+
+Lemma pshift_spec q a t : pev (pshift q a) t = pev q (radd a t).
+Proof.
+  induction q as [|q0 q IH]; [reflexivity|]. cbn [pshift]. rewrite !pev_padd, !pev_cons, pev_scal, pev_nil, IH. ring.
+Qed.
+
+Lemma pev_zero_hd c : pev c rO = hd rO c.
+Proof. destruct c as [|c0 c]; [reflexivity|]. rewrite pev_cons. cbn [hd]. ring. Qed.
+
+(* the filter is the identity on samples of a polynomial of degree <= polynom, for ANY abscissae
+   whose windows have an invertible normal matrix (np.linalg.inv returns a left inverse) *)
+Theorem savgol_reproduces_polynomials (half p : nat) (x : list R) (q : list R) :
+  length q = p -> (2 * half + 1 <= length x)%nat ->
+  (forall i, (half <= i < length x - half)%nat ->
+     let ts := map (fun xx => rsub xx (nth i x rO)) (firstn (2 * half + 1) (skipn (i - half) x)) in
+     left_inverse p (minv (nmat p ts)) (nmat p ts)) ->
+  savgol_core R rO rI radd rmul rsub minv half p x (map (pev q) x) = map (pev q) x.
+Proof.
+  intros Hq Hn Hinv. unfold savgol_core.
+  set (n := length x) in *.
+  assert (Hlocal : forall i, (half <= i < n - half)%nat ->
+            lfit p (map (fun xx => rsub xx (nth i x rO)) (window_at R half i x))
+                   (window_at R half i (map (pev q) x)) = pshift q (nth i x rO)).
+  { intros i Hi. unfold window_at. rewrite skipn_map, firstn_map.
+    set (win := firstn (2 * half + 1) (skipn (i - half) x)).
+    rewrite (map_ext (pev q) (fun xx => pev (pshift q (nth i x rO)) (rsub xx (nth i x rO)))).
+    2:{ intros xx. rewrite pshift_spec. f_equal. ring. }
+    rewrite <- (map_map (fun xx => rsub xx (nth i x rO)) (pev (pshift q (nth i x rO)))).
+    apply fit_recovers; [rewrite pshift_length; exact Hq | exact (Hinv i Hi)]. }
+  apply nth_ext with (d := rO) (d' := rO); [rewrite !map_length, seq_length; reflexivity|].
+  intros i Hi. rewrite map_length, seq_length in Hi.
+  rewrite nth_map_seq by exact Hi.
+  rewrite (nth_indep (map (pev q) x) rO (pev q rO)) by (rewrite map_length; exact Hi). rewrite (map_nth (pev q)).
+  destruct (Nat.ltb_spec i half) as [H1|H1].
+  - rewrite Hlocal by lia. rewrite pshift_spec. f_equal. ring.
+  - destruct (Nat.ltb_spec i (n - half)) as [H2|H2].
+    + rewrite Hlocal by lia. rewrite <- pev_zero_hd, pshift_spec. f_equal. ring.
+    + rewrite Hlocal by lia. rewrite pshift_spec. f_equal. ring.
+Qed.
+
+(* the public function, with its guards: odd window, polynom < window < len(x) *)
+Theorem savgol_public (window polynom : Z) (x q : list R) :
+  window mod 2 = 1 -> 0 <= polynom < window -> window < Z.of_nat (length x) ->
+  length q = Z.to_nat (polynom + 1) ->
+  let half := Z.to_nat (window / 2) in
+  (forall i, (half <= i < length x - half)%nat ->
+     let ts := map (fun xx => rsub xx (nth i x rO)) (firstn (2 * half + 1) (skipn (i - half) x)) in
+     left_inverse (Z.to_nat (polynom + 1)) (minv (nmat (Z.to_nat (polynom + 1)) ts))
+                  (nmat (Z.to_nat (polynom + 1)) ts)) ->
+  savgol R rO rI radd rmul rsub minv window polynom x (map (pev q) x) = inr (map (pev q) x).
+Proof.
+  intros Hodd Hp Hn Hq half Hinv. unfold savgol. rewrite map_length, Nat.eqb_refl. cbn [negb].
+  destruct (Z.ltb_spec (Z.of_nat (length x)) window); [lia|].
+  rewrite Hodd. cbn [Z.eqb].
+  destruct (Z.geb_spec polynom window); [lia|].
+  destruct (Z.eqb_spec (Z.of_nat (length x)) window); [lia|]. cbn [andb].
+  f_equal. apply savgol_reproduces_polynomials; [exact Hq | | exact Hinv].
+  pose proof (Z.div_mod window 2 ltac:(lia)). fold half. unfold half. lia.
+Qed.
+
 End FieldProofs.
+Unset Default Proof Using.
+
+(* ------------------------------------------------------------------ *)
+(* cadzow: trajectory-matrix index structure                           *)
+(* ------------------------------------------------------------------ *)
+Lemma traj_dims n : 1 <= n -> 1 <= traj_rows n /\ 1 <= traj_cols n /\ traj_rows n + traj_cols n = n + 1.
+Proof.
+  intros Hn. unfold traj_rows, traj_cols, cdiv.
+  pose proof (Z.div_mod n 2 ltac:(lia)). pose proof (Z.mod_pos_bound n 2 ltac:(lia)).
+  pose proof (Z.div_mod (- n) 2 ltac:(lia)). pose proof (Z.mod_pos_bound (- n) 2 ltac:(lia)). lia.
+Qed.
+
+Lemma traj_at_range n r c : 1 <= n -> 0 <= r < traj_rows n -> 0 <= c < traj_cols n ->
+  0 <= traj_at n r c < n.
+Proof. intros Hn Hr Hc. pose proof (traj_dims n Hn). unfold traj_at. lia. Qed.
+
+(* every trace index 0..n-1 occurs in the one-dimensional Toeplitz-like index matrix *)
+Lemma traj_cover n k : 1 <= n -> 0 <= k < n ->
+  exists r c, 0 <= r < traj_rows n /\ 0 <= c < traj_cols n /\ traj_at n r c = k.
+Proof.
+  intros Hn Hk. pose proof (traj_dims n Hn) as [H1 [H2 H3]].
+  destruct (Z_lt_le_dec k (traj_rows n)) as [Hlt|Hge].
+  - exists k, (traj_cols n - 1). unfold traj_at. lia.
+  - exists (traj_rows n - 1), (traj_cols n - 1 - (k - (traj_rows n - 1))). unfold traj_at. lia.
+Qed.
+
+Lemma traj_idx_spec n : 1 <= n ->
+  (forall row, In row (traj_idx n) -> forall v, In v row -> 0 <= v < n) /\
+  (forall k, 0 <= k < n -> exists row, In row (traj_idx n) /\ In k row).
+Proof.
+  intros Hn. pose proof (traj_dims n Hn) as [H1 [H2 H3]]. split.
+  - intros row Hrow v Hv. unfold traj_idx in Hrow. apply in_map_iff in Hrow. destruct Hrow as [r [<- Hr]].
+    apply in_map_iff in Hv. destruct Hv as [c [<- Hc]]. apply in_zrange in Hr, Hc.
+    apply traj_at_range; lia.
+  - intros k Hk. destruct (traj_cover n k Hn Hk) as [r [c [Hr [Hc E]]]].
+    exists (map (fun c => traj_at n r c) (zrange (Z.to_nat (traj_cols n)))). split.
+    + unfold traj_idx. apply in_map_iff. exists r. split; [reflexivity|]. apply in_zrange. lia.
+    + apply in_map_iff. exists c. split; [exact E|]. apply in_zrange. lia.
+Qed.
+
+(* --- ranks (np.unique inverse) --- *)
+Lemma filter_len_mono {A} (p q : A -> bool) l :
+  (forall x, In x l -> p x = true -> q x = true) -> (length (filter p l) <= length (filter q l))%nat.
+Proof.
+  induction l as [|a l IH]; intros H; [reflexivity|]. cbn [filter].
+  assert (IH' := IH (fun x Hx => H x (or_intror Hx))).
+  destruct (p a) eqn:Pa; [rewrite (H a (or_introl eq_refl) Pa); cbn [length]; lia|].
+  destruct (q a); cbn [length]; lia.
+Qed.
+
+Lemma filter_len_strict {A} (p q : A -> bool) l w :
+  (forall x, In x l -> p x = true -> q x = true) -> In w l -> p w = false -> q w = true ->
+  (length (filter p l) < length (filter q l))%nat.
+Proof.
+  induction l as [|a l IH]; intros H Hw Pw Qw; [destruct Hw|]. cbn [filter].
+  pose proof (filter_len_mono p q l (fun x Hx => H x (or_intror Hx))) as Hm.
+  destruct Hw as [->|Hw].
+  - rewrite Pw, Qw. cbn [length]. lia.
+  - specialize (IH (fun x Hx => H x (or_intror Hx)) Hw Pw Qw).
+    destruct (p a) eqn:Pa; [rewrite (H a (or_introl eq_refl) Pa); cbn [length]; lia|].
+    destruct (q a); cbn [length]; lia.
+Qed.
+
+Lemma rank_in_range l v : In v l -> 0 <= rank_in l v < Z.of_nat (length (uniq_sorted l)).
+Proof.
+  intros Hv. unfold rank_in. split; [lia|]. apply inj_lt.
+  assert (E : filter (fun _ : Z => true) (uniq_sorted l) = uniq_sorted l).
+  { induction (uniq_sorted l) as [|a r IH]; [reflexivity|]. cbn [filter]. now rewrite IH. }
+  rewrite <- E at 2. apply filter_len_strict with (w := v); try reflexivity.
+  - now apply uniq_sorted_in.
+  - apply Z.ltb_irrefl.
+Qed.
+
+Lemma rank_in_lt l u v : In u l -> u < v -> rank_in l u < rank_in l v.
+Proof.
+  intros Hu Huv. unfold rank_in. apply inj_lt. apply filter_len_strict with (w := u).
+  - intros x _ Hx. apply Z.ltb_lt in Hx. apply Z.ltb_lt. lia.
+  - now apply uniq_sorted_in.
+  - apply Z.ltb_irrefl.
+  - now apply Z.ltb_lt.
+Qed.
+
+Lemma rank_in_inj l u v : In u l -> In v l -> rank_in l u = rank_in l v -> u = v.
+Proof.
+  intros Hu Hv E. destruct (Z.lt_trichotomy u v) as [H|[H|H]]; [|exact H|].
+  - pose proof (rank_in_lt l u v Hu H). lia.
+  - pose proof (rank_in_lt l v u Hv H). lia.
+Qed.
+
+Lemma NoDup_map_local {A B} (f : A -> B) l :
+  NoDup l -> (forall a b, In a l -> In b l -> f a = f b -> a = b) -> NoDup (map f l).
+Proof.
+  induction 1 as [|a l Hnin Hnd IH]; intros Hinj; [constructor|]. cbn [map]. constructor.
+  - intros Hin. apply in_map_iff in Hin. destruct Hin as [b [Eb Hb]].
+    assert (b = a) by (apply Hinj; [now right | now left | exact Eb]). subst b. contradiction.
+  - apply IH. intros x y Hx Hy. apply Hinj; now right.
+Qed.
+
+Lemma combine_map_both {A B C D} (f : A -> C) (g : B -> D) (la : list A) : forall lb,
+  combine (map f la) (map g lb) = map (fun p => (f (fst p), g (snd p))) (combine la lb).
+Proof. induction la as [|a la IH]; intros [|b lb]; cbn; try reflexivity. now rewrite IH. Qed.
+
+Lemma find_pair_first (ixy : list (Z * Z)) : forall k0 (k : nat) a b,
+  NoDup ixy -> nth_error ixy k = Some (a, b) -> find_pair k0 ixy a b = k0 + Z.of_nat k.
+Proof.
+  induction ixy as [|[i j] r IH]; intros k0 k a b Hnd Hk; [destruct k; discriminate|].
+  inversion Hnd as [|? ? Hnin Hnd']; subst. cbn [find_pair]. destruct k as [|k].
+  - cbn in Hk. inversion Hk; subst. rewrite !Z.eqb_refl. cbn. lia.
+  - cbn [nth_error] in Hk.
+    destruct ((i =? a) && (j =? b)) eqn:E.
+    + apply andb_true_iff in E. destruct E as [E1 E2]. apply Z.eqb_eq in E1, E2. subst.
+      exfalso. apply Hnin. eapply nth_error_In, Hk.
+    + rewrite (IH (k0 + 1) k a b Hnd' Hk). lia.
+Qed.
+
+(* every trace of a layout with distinct sites occurs in the trajectory matrix, and all
+   entries are -1 or a trace index *)
+Theorem traj_every_trace_occurs (x y : list Z) (k : nat) :
+  length x = length y -> NoDup (combine x y) -> (k < length x)%nat ->
+  let '(nrows, ncols, entries) := traj_entries x y in
+  Z.of_nat (length entries) = nrows * ncols /\ In (Z.of_nat k) entries /\ 0 < count_eq (Z.of_nat k) entries.
+Proof.
+  intros Hl Hnd Hk. unfold traj_entries.
+  set (nx := Z.of_nat (length (uniq_sorted x))). set (ny := Z.of_nat (length (uniq_sorted y))).
+  set (ixy := combine (map (rank_in x) x) (map (rank_in y) y)).
+  set (nry := traj_rows ny). set (ncy := traj_cols ny).
+  set (nrows := nry * traj_rows nx). set (ncols := ncy * traj_cols nx).
+  set (F := fun r c => find_pair 0 ixy (traj_at nx (r / nry) (c / ncy)) (traj_at ny (r mod nry) (c mod ncy))).
+  assert (Hxk : In (nth k x 0) x) by (apply nth_In; lia).
+  assert (Hyk : In (nth k y 0) y) by (apply nth_In; lia).
+  pose proof (rank_in_range x _ Hxk) as Ha. pose proof (rank_in_range y _ Hyk) as Hb. fold nx in Ha. fold ny in Hb.
+  destruct (traj_dims nx ltac:(lia)) as [Hx1 [Hx2 Hx3]]. destruct (traj_dims ny ltac:(lia)) as [Hy1 [Hy2 Hy3]].
+  fold nry ncy in Hy1, Hy2, Hy3.
+  assert (Hlen : Z.of_nat (length (flat_map (fun r => map (fun c => F r c) (zrange (Z.to_nat ncols)))
+                                            (zrange (Z.to_nat nrows)))) = nrows * ncols).
+  { assert (G : forall l, Z.of_nat (length (flat_map (fun r => map (fun c => F r c) (zrange (Z.to_nat ncols))) l))
+                         = Z.of_nat (length l) * ncols).
+    { induction l as [|r l IH]; [reflexivity|]. cbn [flat_map length]. rewrite app_length, map_length, zrange_length.
+      rewrite Nat2Z.inj_add, IH. unfold ncols. nia. }
+    rewrite G, zrange_length. unfold nrows. nia. }
+  assert (Hin : In (Z.of_nat k) (flat_map (fun r => map (fun c => F r c) (zrange (Z.to_nat ncols)))
+                                          (zrange (Z.to_nat nrows)))).
+  { destruct (traj_cover nx _ ltac:(lia) Ha) as [r1 [c1 [Hr1 [Hc1 E1]]]].
+    destruct (traj_cover ny _ ltac:(lia) Hb) as [r2 [c2 [Hr2 [Hc2 E2]]]]. fold nry in Hr2. fold ncy in Hc2.
+    apply in_flat_map. exists (r1 * nry + r2). split; [apply in_zrange; unfold nrows; nia|].
+    apply in_map_iff. exists (c1 * ncy + c2). split; [|apply in_zrange; unfold ncols; nia].
+    unfold F.
+    assert (D1 : (r1 * nry + r2) / nry = r1) by (symmetry; apply (Z.div_unique _ nry r1 r2); lia).
+    assert (D2 : (r1 * nry + r2) mod nry = r2) by (symmetry; apply (Z.mod_unique _ nry r1 r2); lia).
+    assert (D3 : (c1 * ncy + c2) / ncy = c1) by (symmetry; apply (Z.div_unique _ ncy c1 c2); lia).
+    assert (D4 : (c1 * ncy + c2) mod ncy = c2) by (symmetry; apply (Z.mod_unique _ ncy c1 c2); lia).
+    rewrite D1, D2, D3, D4.
+    rewrite E1, E2. rewrite (find_pair_first ixy 0 k); [lia| |].
+    - unfold ixy. rewrite combine_map_both. apply NoDup_map_local; [exact Hnd|].
+      intros [u v] [u' v'] H1 H2 E. cbn [fst snd] in E. inversion E as [[Eu Ev]].
+      pose proof (in_combine_l _ _ _ _ H1). pose proof (in_combine_r _ _ _ _ H1).
+      pose proof (in_combine_l _ _ _ _ H2). pose proof (in_combine_r _ _ _ _ H2).
+      f_equal; [eapply rank_in_inj; eauto | eapply rank_in_inj; eauto].
+    - unfold ixy. rewrite combine_map_both.
+      rewrite nth_error_map. 
+      assert (Hc : nth_error (combine x y) k = Some (nth k x 0, nth k y 0)).
+      { rewrite <- (combine_nth x y k 0 0 Hl). apply nth_error_nth'. rewrite combine_length. lia. }
+      rewrite Hc. reflexivity. }
+  split; [exact Hlen|]. split; [exact Hin | apply count_eq_pos, Hin].
+Qed.
+
+(* ------------------------------------------------------------------ *)
+(* a plane wave on a complete regular grid fills a rank-one trajectory matrix *)
+(* ------------------------------------------------------------------ *)
+Section PlaneWave.
+Variable R : Type.
+Variables (rO rI : R) (radd rmul rsub : R -> R -> R) (ropp : R -> R).
+Hypothesis Rth : ring_theory rO rI radd rmul rsub ropp (@eq R).
+Add Ring Rring : Rth.
+Set Default Proof Using "Rth".
+Local Notation pw := (rpow R rI rmul).
+
+Lemma rpow_add t a b : pw t (a + b) = rmul (pw t a) (pw t b).
+Proof. induction b as [|b IH]; [rewrite Nat.add_0_r; cbn [rpow]; ring|]. rewrite Nat.add_succ_r. cbn [rpow]. rewrite IH. ring. Qed.
+
+Definition zpw (t : R) (k : Z) : R := pw t (Z.to_nat k).
+
+Theorem plane_wave_rank1 (A u v : R) (nx ny r c : Z) :
+  1 <= nx -> 1 <= ny ->
+  0 <= r < traj_rows ny * traj_rows nx -> 0 <= c < traj_cols ny * traj_cols nx ->
+  let nry := traj_rows ny in let ncy := traj_cols ny in
+  rmul (rmul A (zpw u (traj_at nx (r / nry) (c / ncy)))) (zpw v (traj_at ny (r mod nry) (c mod ncy)))
+  = rmul (rmul (rmul A (zpw u (r / nry))) (zpw v (r mod nry)))
+         (rmul (zpw u (traj_cols nx - 1 - c / ncy)) (zpw v (ncy - 1 - c mod ncy))).
+Proof.
+  intros Hnx Hny Hr Hc nry ncy.
+  destruct (traj_dims nx Hnx) as [Hx1 [Hx2 _]]. destruct (traj_dims ny Hny) as [Hy1 [Hy2 _]]. fold nry ncy in Hy1, Hy2.
+  assert (0 <= r / nry) by (apply Z.div_pos; lia).
+  assert (0 <= c / ncy < traj_cols nx).
+  { split; [apply Z.div_pos; lia|]. apply Z.div_lt_upper_bound; [lia|]. fold ncy in Hc. lia. }
+  pose proof (Z.mod_pos_bound r nry ltac:(lia)). pose proof (Z.mod_pos_bound c ncy ltac:(lia)).
+  unfold zpw, traj_at. fold ncy. rewrite !Z2Nat.inj_add, !rpow_add by lia. ring.
+Qed.
+End PlaneWave.
+Unset Default Proof Using.
